@@ -180,7 +180,9 @@ func runC16(c *core.Ctx) {
 				return false
 			})
 			nextErrIdx := cv.Type().(*types.Tuple).Len() - 1
-			nilErr := core.EdgesWhere(fn, func(r core.Rel) bool { return r.Op == token.EQL && extractOf(r.X, cv, nextErrIdx) && core.IsNilConst(r.Y) })
+			nilErr := core.EdgesWhere(fn, func(r core.Rel) bool {
+				return r.Op == token.EQL && extractOf(r.X, cv, nextErrIdx) && core.IsNilConst(r.Y)
+			})
 			// target: the same Next() call again, or leaving the loop towards Finish
 			target := func(in ssa.Instruction) bool {
 				if in == ssa.Instruction(cv) {
